@@ -17,7 +17,7 @@ META = {
         "gross_proceeds. R5: a disposal's quantity/gross_proceeds/proceeds are sums of its legs' quantity/gross_proceeds/proceeds. "
         "R6: dividend income += total_value and tax += tax_paid, keyed by the tax year of the line's own date. R7: no caller of "
         "the exemption lookup defaults a missing year. R7 also: values merged into Config.exemptions replace the entries already there (an override file wins). R8: the same-day merge adds quantities and fees and sets the price to "
-        "(a₁p₁ + a₂p₂) ÷ (a₁ + a₂). Values are not computed; rounding to 10 dp in grouping is reported, not judged."),
+        "(a₁p₁ + a₂p₂) ÷ (a₁ + a₂). Values are not computed; rounding to 10 dp in grouping is reported, not judged. R6 also: every tax-year summary takes its dividend figures from the aggregate filed under the year its own period is built from. R9: no call thins the list of transactions before matching (shared with C02-R10)."),
     "trusted_base": ["rust_decimal arithmetic", "copy propagation + helper summaries preserve values", "rustc MIR + resolution"],
 }
 
